@@ -31,8 +31,9 @@ class _OldRewriter(ast.NodeTransformer):
                 ast.Subscript(value=ast.Name(id="__olds__", ctx=ast.Load()),
                               slice=ast.Constant(value=len(self.olds) - 1), ctx=ast.Load()), node)
         self.generic_visit(node)
-        if isinstance(node.func, ast.Name) and node.func.id in ("forall", "exists") and len(node.args) == 3:
-            return node
+        if isinstance(node.func, ast.Name) and node.func.id == "implies" and len(node.args) == 2:
+            # lazily, as in the verifier: the consequent is only evaluated where the antecedent holds
+            return ast.copy_location(ast.BoolOp(op=ast.Or(), values=[ast.UnaryOp(op=ast.Not(), operand=node.args[0]), node.args[1]]), node)
         return node
 
 
@@ -129,6 +130,17 @@ def _compile_clauses(clauses):
     return _compiled[key]
 
 
+class _Olds(list):
+    """old() values of the pre-state; one that could not be evaluated there (it needs at_return(...), a ghost field, ...) makes
+    the clause that uses it unevaluable (skipped), never false."""
+
+    def __getitem__(self, i):
+        v = list.__getitem__(self, i)
+        if isinstance(v, tuple) and len(v) == 2 and v[0] == "__old_error__":
+            raise LookupError(f"old() value not available at run time: {v[1]}")
+        return v
+
+
 def prepare_olds(clauses, env):
     """-> (compiled clauses, evaluated old() values) ; old(e) is evaluated now (pre-state)."""
     codes, oldcodes = _compile_clauses(clauses)
@@ -142,7 +154,7 @@ def prepare_olds(clauses, env):
         except Exception as err:  # noqa: BLE001
             v = ("__old_error__", repr(err))
         olds.append(v)
-    return codes, olds
+    return codes, _Olds(olds)
 
 
 def check_call(target, kwargs, consume_generators=True):
